@@ -235,7 +235,7 @@ class PurityScenario(Scenario):
     prop = 'C10'
     uses_fresh = True
     quick_runs = 900
-    thorough_runs = 90000
+    thorough_runs = 30000
     audit_every = 1
     rule = ('each run = K in 2..4 simulated callers running pipeline fragments (optics, FFT with scratch, tilt fitting, '
             'DFTs with repeated shapes, Zernike, array utilities, shapes, detector chain, seeded noise models, spectra) over a '
@@ -834,9 +834,9 @@ class PurityScenario(Scenario):
             fns = [t[0] for t in table]
             wts = [t[1] for t in table]
             prog = []
-            for _ in range(rng.randint(2, 5)):
+            for _ in range(rng.randint(2, 5 * self.depth)):
                 prog += rng.choices(fns, wts)[0]()
-            progs.append(prog[:40])
+            progs.append(prog[:40 * self.depth])
         if world['frozen']:
             events.append({'env': 'freeze', 'targets': ['@' + a for a in shared_arrays]})
         events += self.interleave(rng, progs)
